@@ -8,7 +8,7 @@ from p_store import KEYS, Hist, hx, show_val, strip_trace, P
 from p_crash import calls_of
 from p_store import D3_SIG
 
-D12_SIG = "D12:fault-during-merge"
+D12_SIG = "D12:failed-merge-returns-without-new-active-file"
 ENOSPC, EIO = 28, 5
 
 
@@ -69,7 +69,7 @@ def fault_script(h, meta, fault, name):
 def evaluate(h, meta, lines, tags, ans):
     """oracle for one faulty run; yields (what, line, expected, observed, signature)"""
     allowed = {k: {None} for k in meta["keys"]}     # key -> set of allowed values (None = absent)
-    attempted = {k: set() for k in meta["keys"]}     # every value ever written or attempted for the key
+    attempted = {k: set() for k in meta["keys"]}     # values of FAILED sets of the key
     merge_after_del = {k: False for k in meta["keys"]}   # a merge ran after the key's last acknowledged delete
     fault_seen = None
     fault_in_merge = False
@@ -82,7 +82,11 @@ def evaluate(h, meta, lines, tags, ans):
             op = h.ops[tag[1]]
             if failed_calls and fault_seen is None:
                 fault_seen = li
-                fault_in_merge = op[0] == "merge"
+                # the known class (D12): a call fails inside the merge pass and the merge returns at once, i.e. WITHOUT creating a
+                # new active file above the output files it has created (no successful create follows the failed call)
+                cs_ = calls_of(ans[li])
+                fi_ = next(i for i, c in enumerate(cs_) if c.startswith("!"))
+                fault_in_merge = op[0] == "merge" and not any(c.startswith("c:d") for c in cs_[fi_ + 1:])
                 if not a.startswith("err"):
                     # a swallowed failure is only acceptable if nothing depends on the failed call
                     yield (f"a file-system call failed ({failed_calls[0]}) during `{lines[li][:40]}` but the operation reported success", li, "err io", a,
@@ -99,9 +103,9 @@ def evaluate(h, meta, lines, tags, ans):
                     if allowed[k] == {None}:
                         merge_after_del[k] = True
             if op[0] == "put":
-                attempted[op[1]].add(show_val(op[2]))
                 merge_after_del[op[1]] = False
                 if a.startswith("err"):
+                    attempted[op[1]].add(show_val(op[2]))      # only FAILED sets: their entry may sit in a file without counters
                     allowed[op[1]] = set(allowed[op[1]]) | {op[2]}
                 else:
                     allowed[op[1]] = {op[2]}
@@ -149,6 +153,10 @@ def run_c20(rep, tier, seed):
         (Hist("c2", "cfg mfs=60 sync=always frag=0/1 dead=0 small=1099511627776 cache=256 pool=1",
               [P(b"a", b"1" * 30), P(b"b", b"2" * 30), P(b"a", b"3" * 30), ("merge",), P(b"c", b"5" * 40), P(b"a", b"6" * 40)]), dict(keys=[b"a", b"b", b"c"], mfs=60, sync="always")),
     ]
+    corpus.append((Hist("c3", "cfg mfs=60 sync=none frag=0/1 dead=0 small=1099511627776 cache=256 pool=1",
+                         [P(b"a", b"1" * 40), P(b"k", b"2" * 40), P(b"b", b"3" * 40), ("del", b"k"), P(b"c", b"4" * 40), ("merge",), P(b"d", b"5")]),
+                   dict(keys=[b"a", b"k", b"b", b"c", b"d"], mfs=60, sync="none")))
+    ncorpus = len(corpus)
     wl = corpus + [gen_fault_workload(rng, i, tier) for i in range(nw)]
     # baselines: count physical calls
     base_lines, spans = [], []
@@ -176,7 +184,7 @@ def run_c20(rep, tier, seed):
         rep.count("workloads")
         rep.count("physical_calls", ncalls)
         positions = list(range(ncalls))
-        if len(positions) > per:
+        if len(positions) > per and wl.index((h, meta)) >= ncorpus:
             positions = sorted(rng.sample(positions, per))
         for n in positions:
             errno = rng.choice([ENOSPC, EIO])
@@ -197,7 +205,12 @@ def run_c20(rep, tier, seed):
         lines = run_lines_all[st:st + ln]
         if len(a2) < ln:
             what = f"harness died / hung ({died.why if died else '?'}) in a faulty run"
-            in_merge = any(l == "merge" and any(c.startswith("!") for c in calls_of(x)) for l, x in zip(lines, a2))
+            in_merge = False
+            for l, x in zip(lines, a2):
+                cs_ = calls_of(x)
+                if l == "merge" and any(c.startswith("!") for c in cs_):
+                    fi_ = next(i for i, c in enumerate(cs_) if c.startswith("!"))
+                    in_merge = not any(c.startswith("c:d") for c in cs_[fi_ + 1:])
             if a2 and a2[-1] == "hang":
                 what = f"`{lines[len(a2) - 1][:40]}` never returned after a fault (hang)"
             probs = [(what, len(a2) - 1, "ok", a2[-1] if a2 else "?", D12_SIG if in_merge else None)]
